@@ -2,7 +2,7 @@
 # tools/runall.sh <tier> <seed>... : run every registered check at the given tier for each seed; one summary line per run
 tier=${1:-quick}; shift
 seeds=${@:-1}
-cd /verif
+cd "$(dirname "$0")/.."
 for s in $seeds; do
   for c in C01 C02 C03 C04 C05 C06 C07 C08 C09 C10 C11 C12 C13 C14 C15 C16 C17 C18 C19; do
     t0=$(date +%s)
